@@ -296,6 +296,17 @@ func (e *Env) Exec(scs []*scen.Scenario, timeout time.Duration) []*Run {
 			r.ExitCode = 0
 		}
 	}
+	// a race world marks the start of every episode on stderr: give each run its own part
+	if first.World.Race && len(runs) > 1 {
+		parts := bytes.Split(se.Bytes(), []byte("@@EPISODE "))
+		for i, r := range runs {
+			if i+1 < len(parts) {
+				r.Stderr = parts[i+1]
+			} else {
+				r.Stderr = nil
+			}
+		}
+	}
 	if fileDir != "" {
 		ents, _ := os.ReadDir(fileDir)
 		files := map[string][]byte{}
